@@ -191,7 +191,7 @@ def main(argv):
                 samples.append(s)
         for k, v in r["extra"].items():
             if isinstance(v, (int, float)) and not isinstance(v, bool):
-                extra[k] = extra.get(k, 0) + v
+                extra[k] = max(extra.get(k, 0), v) if k.startswith("max_") else extra.get(k, 0) + v
             elif isinstance(v, dict):
                 c = Counter(extra.get(k, {}))
                 c.update(v)
@@ -229,6 +229,8 @@ def main(argv):
     shrink_tasks = []
     for b in novel[:max_report]:
         f = first_fail[b]
+        if getattr(mod, "no_shrink", lambda _b: False)(b):
+            continue  # e.g. work-bound violations: every shrink candidate would cost the whole work budget
         shrink_tasks.append((prop, specs[f["shard"]], core.derive_seed(seed, prop, f["shard"]), f["shard"], b))
     shrunk_by_bucket = {}
     if shrink_tasks and getattr(mod, "HYP_SHRINK", True):
